@@ -450,6 +450,12 @@ func judgeInverse(w *core.W, c *invCase) {
 		if best == nil || obs == nil || obs.idx != best.Form.RouteIdx {
 			continue // dispatch itself is C01's subject
 		}
+		if _, has := best.Raw["route"]; has {
+			continue // the bind's value is replaced by the reserved `route` parameter inside a handler
+		}
+		if _, has := best.Raw["withOptional"]; has {
+			continue // through the pairs API the name withOptional is the flag itself
+		}
 		want := expectedRoundTrip(best, rmodel.SplitPath(path))
 		got := obs.rebuilt[1]
 		if best.Form.Short {
